@@ -22,7 +22,7 @@ import (
 // Faults are injected through decorators on seams rend already has: a
 // handlers.Handler wrapper (L1 / L2) and a protocol.Responder wrapper. At the
 // k-th call (counted from the moment the fault is armed) the decorator panics
-// before delegating, panics after delegating, or returns an I/O error.
+// before delegating, panics after delegating, or returns an error (an I/O error, or in half of the cases a backend error reply: busy / out of memory).
 
 type faultCtl struct {
 	pval   int // what the injected panic carries: 0 string, 1 io.EOF, 2 another error value, 3 a runtime error
@@ -35,6 +35,19 @@ type faultCtl struct {
 }
 
 var errInjected = errors.New("injected I/O error")
+
+// injErr is what the "error" mode returns: an I/O error (the connection underneath is
+// gone) or, in half of the cases, an error reply of the backend (busy, out of memory),
+// after which the connection and the command go on.
+func (c *faultCtl) injErr() error {
+	switch c.pval {
+	case 2:
+		return common.ErrBusy
+	case 3:
+		return common.ErrNoMem
+	}
+	return errInjected
+}
 
 // boom panics with the kind of value the plan asks for. Layers underneath rend can
 // panic with anything: a string, an error value such as io.EOF, a runtime error.
@@ -80,7 +93,7 @@ func (h faultHandler) guard(call func() error) error {
 			call()
 			h.ctl.boom("after " + h.tier + " call")
 		default:
-			return errInjected
+			return h.ctl.injErr()
 		}
 	}
 	return call()
@@ -131,7 +144,7 @@ func (h faultHandler) Get(c common.GetRequest) (<-chan common.GetResponse, <-cha
 		default:
 			rc := make(chan common.GetResponse)
 			ec := make(chan error, 1)
-			ec <- errInjected
+			ec <- h.ctl.injErr()
 			close(rc)
 			close(ec)
 			return rc, ec
@@ -154,7 +167,7 @@ func (h faultHandler) GetE(c common.GetRequest) (<-chan common.GetEResponse, <-c
 		default:
 			rc := make(chan common.GetEResponse)
 			ec := make(chan error, 1)
-			ec <- errInjected
+			ec <- h.ctl.injErr()
 			close(rc)
 			close(ec)
 			return rc, ec
@@ -310,6 +323,8 @@ func execC12(t *testing.T, p Plan, src kernel.Source) Result {
 			fault := fmt.Sprintf("%s at call #%d of %s", ctl.mode, ctl.k, ctl.target)
 			if ctl.mode != "error" {
 				fault += " carrying " + []string{"a string", "io.EOF", "an error value", "a runtime error"}[ctl.pval]
+			} else {
+				fault += " = " + ctl.injErr().Error()
 			}
 			if i == victimStep {
 				ctl.armed = false
@@ -540,7 +555,7 @@ func init() {
 	register(&Prop{
 		ID: "C12", Gen: genC12, Exec: execC12, Enumerate: enumC12, Level: "fault_enumeration",
 		Nontrivial: func(p Plan, r Result) bool { return !r.Trivial },
-		Rule:       "faults are injected through decorators on existing seams (handlers.Handler for L1/L2, protocol.Responder): at the k-th call made while the victim command runs the decorator panics before delegating, panics after delegating (the panic carries, in rotation, a string, io.EOF, another error value or a runtime error), or returns an I/O error. Enumerated part: every command kind (hit and miss variants, single-, multi-key and quiet gets, gat) x {text, binary} x {main, batch port} x {L1-only, L1/L2, batch} x {single, multi reader} x target {L1, L2, responder} x mode x k = 0..4 (thorough: 0..9, every combination); runs in which call #k does not exist are counted as trivial. Seeded part: the same with drawn parameters, plus concurrent programs of 2-4 connections issuing multi-key gets over overlapping keys in opposite orders mixed with writers (deadlock check under kernel-chosen lock grants). Oracles from the instrumented key locks (every Lock/RLock/Unlock of package orcas is logged with the connection it runs for): no lock held after the command ended, never two locks per connection, the next command on the key from another connection completes, after a panic the victim connection is closed; non-trivial = the fault fired / concurrent program; distinct = distinct plan hash",
+		Rule:       "faults are injected through decorators on existing seams (handlers.Handler for L1/L2, protocol.Responder): at the k-th call made while the victim command runs the decorator panics before delegating, panics after delegating (the panic carries, in rotation, a string, io.EOF, another error value or a runtime error), or returns an error (an I/O error, or in half of the cases a backend error reply: busy / out of memory). Enumerated part: every command kind (hit and miss variants, single-, multi-key and quiet gets, gat) x {text, binary} x {main, batch port} x {L1-only, L1/L2, batch} x {single, multi reader} x target {L1, L2, responder} x mode x k = 0..4 (thorough: 0..9, every combination); runs in which call #k does not exist are counted as trivial. Seeded part: the same with drawn parameters, plus concurrent programs of 2-4 connections issuing multi-key gets over overlapping keys in opposite orders mixed with writers (deadlock check under kernel-chosen lock grants). Oracles from the instrumented key locks (every Lock/RLock/Unlock of package orcas is logged with the connection it runs for): no lock held after the command ended, never two locks per connection, the next command on the key from another connection completes, after a panic the victim connection is closed; non-trivial = the fault fired / concurrent program; distinct = distinct plan hash",
 		Real:       realFullStack,
 		Stub:       append(append([]string{}, stubFullStack...), "fault decorators around the real handlers and responders", "key locks: channel-based shadow of sync.Mutex/RWMutex, grants are kernel events"),
 		FaultKinds: []string{"panic_before", "panic_after", "error"},
